@@ -184,7 +184,18 @@ def case_mibdump(idx, rng, tier, res):
             with open(os.path.join(dst, '__pycache__'), 'w') as f:
                 f.write('not a directory\n')
             res.count('pycache_blocked_runs')
-        args = ['--mib-source=' + src, '--destination-directory=' + dst, '--destination-format=' + fmt,
+        src_args = ['--mib-source=' + src]
+        if rng.random() < 0.25:
+            src0 = os.path.join(base, 'src0')
+            os.makedirs(src0)
+            healthy = [m for m in mods if health[m] == 'ok']
+            if healthy:
+                m0 = rng.choice(healthy)
+                with open(os.path.join(src0, m0 + '.txt'), 'w') as f:
+                    f.write(orch.module_text(m0, g.get(m0, []), 'disk0', rng.choice(['synerr', 'lexerr', 'truncated'])))
+                src_args = ['--mib-source=' + src0] + src_args
+                res.count('broken_copy_in_earlier_source')
+        args = src_args + ['--destination-directory=' + dst, '--destination-format=' + fmt,
                 '--mib-borrower=' + bor, '--mib-searcher=' + dst] + opts
         names = [alias[1] if alias and alias[0] == r else r for r in requested]
         before = faults.snapshot(dst)
